@@ -16,6 +16,13 @@ type FragReader struct {
 	Cuts        []int
 	EOFWithData bool
 	MaxPerCall  int // 0 = unlimited (only cuts fragment)
+	// ZeroAt >= 0: the first Read call that starts at this offset returns
+	// (0, nil) - "nothing happened", which the io.Reader contract allows and
+	// callers must not take for end of file; ZeroEvery: every other call does.
+	ZeroAt      int // offset+1; 0 = never
+	ZeroEvery   bool
+	zeroDone    bool
+	Zeros       int
 	pos         int
 	Calls       int
 	SplitFields int // number of reads that returned fewer bytes than requested (short reads)
@@ -28,6 +35,12 @@ func (f *FragReader) Read(p []byte) (int, error) {
 	}
 	if f.pos >= len(f.Data) {
 		return 0, io.EOF
+	}
+	if (f.ZeroEvery && f.Calls%2 == 1) || (f.ZeroAt > 0 && !f.zeroDone && f.pos == f.ZeroAt-1) {
+		// ZeroAt is stored as offset+1 so that the zero value means "never"
+		f.zeroDone = true
+		f.Zeros++
+		return 0, nil
 	}
 	end := len(f.Data)
 	for _, c := range f.Cuts {
